@@ -60,7 +60,7 @@ def _file_db(conn=None):
 
 
 def unit_delete(U):
-    forms = ["str", "feature", "list-str", "list-feature", "tuple-mixed", "featuredb"]
+    forms = ["str", "feature", "list-str", "list-feature", "tuple-mixed", "featuredb", "generator", "iterator"]
     for form in forms:
         for backup in (True, False):
             for filedb in (True, False):
@@ -74,7 +74,8 @@ def unit_delete(U):
                     if not filedb:
                         db.dbfn = db.conn
                     fx, fy = blank_feature(id=x), blank_feature(id=y)
-                    arg = {"str": x, "feature": fx, "list-str": [x, y], "list-feature": [fx, fy], "tuple-mixed": (x, fy)}.get(form)
+                    arg = {"str": x, "feature": fx, "list-str": [x, y], "list-feature": [fx, fy], "tuple-mixed": (x, fy),
+                           "generator": (f_ for f_ in [fx, fy]), "iterator": iter([x, y])}.get(form)
                     ids = [x] if form in ("str", "feature") else [x, y]
                     if form == "featuredb":
                         other = blank_db()
@@ -93,19 +94,37 @@ def unit_delete(U):
                     effs = IM.classify(p.ctx.effects)
                     stm = [e for e in effs if e.kind in ("insert", "update", "delete", "select", "script")]
                     frow, rrow, rvars = SQ.sym_feature_and_relation()
-                    goals = [z3.BoolVal(bool(ok) and len(stm) == 2 * len(ids))]
+                    # one statement per row: an executemany counts as one execution per argument row, so that batching the
+                    # deletes per table is the same thing as issuing them feature by feature
+                    ops = []
+                    for e in stm:
+                        if e.how == "executemany":
+                            try:
+                                rows_ = [list(r) for r in e.args]
+                            except TypeError:
+                                rows_ = None
+                            if rows_ is None:
+                                ops.append((e, None))
+                            else:
+                                ops.extend((e, r) for r in rows_)
+                        else:
+                            ops.append((e, list(e.args) if isinstance(e.args, (list, tuple)) else None))
+                    fdel = [(e, a) for e, a in ops if e.kind == "delete" and e.table == "features"]
+                    rdel = [(e, a) for e, a in ops if e.kind == "delete" and e.table == "relations"]
+                    other = [(e, a) for e, a in ops if not (e.kind == "delete" and e.table in ("features", "relations"))]
+                    goals = [z3.BoolVal(bool(ok) and not other and len(fdel) == len(ids) and len(rdel) == len(ids))]
                     for j, idv in enumerate(ids):
-                        if len(stm) < 2 * (j + 1):
+                        if len(fdel) <= j or len(rdel) <= j:
                             break
-                        d1, d2 = stm[2 * j], stm[2 * j + 1]
-                        if d1.kind != "delete" or d2.kind != "delete" or d1.table != "features" or d2.table != "relations":
+                        (d1, a1), (d2, a2) = fdel[j], rdel[j]
+                        if a1 is None or a2 is None or d1.stmt is None or d2.stmt is None:
                             goals.append(z3.BoolVal(False))
                             continue
                         try:
                             w1 = [c for c in d1.stmt.node.children if hasattr(c, "data") and c.data == "where"][0].children[-1]
                             w2 = [c for c in d2.stmt.node.children if hasattr(c, "data") and c.data == "where"][0].children[-1]
-                            c1, e1 = Q.where_predicate(w1, {"features": frow}, d1.args, d1.stmt.holes)
-                            c2, e2 = Q.where_predicate(w2, {"relations": rrow}, d2.args, d2.stmt.holes)
+                            c1, e1 = Q.where_predicate(w1, {"features": frow}, a1, d1.stmt.holes)
+                            c2, e2 = Q.where_predicate(w2, {"relations": rrow}, a2, d2.stmt.holes)
                             goals.append(z3.And(Q._zb(c1) == (frow["id"].term == idv.z3()), Q._zb(c2) == z3.Or(rrow["parent"].term == idv.z3(), rrow["child"].term == idv.z3()),
                                                 z3.BoolVal(e1.pos == len(e1.args) and e2.pos == len(e2.args))))
                         except (Q.SQLArgs, Q.SQLSyntax, IndexError):
@@ -131,7 +150,11 @@ def _native_delete(form):
         feats = [mk("g"), mk("x", ["g"]), mk("y", ["x"]), mk("z", ["y", "g"])]
         db = gffutils.create_db(feats, fn)
         pre = open(fn, "rb").read()
-        arg = {"str": "x", "feature": db["x"], "list-str": ["x", "y"], "list-feature": [db["x"], db["y"]], "tuple-mixed": ("x", db["y"])}.get(form, ["x", "y"])
+        arg = {"str": "x", "feature": db["x"], "list-str": ["x", "y"], "list-feature": [db["x"], db["y"]], "tuple-mixed": ("x", db["y"]),
+               "generator": (f for f in [db["x"], db["y"]]), "iterator": iter(["x", "y"])}.get(form)
+        if form == "featuredb":
+            # another database holding exactly x and y: delete() takes its all_features() generator
+            arg = gffutils.create_db([mk("x"), mk("y")], ":memory:")
         ids = ["x"] if form in ("str", "feature") else ["x", "y"]
         rel0 = set(tuple(r) for r in db.conn.execute("SELECT parent, child, level FROM relations"))
         db.delete(arg, make_backup=True)
